@@ -1,6 +1,8 @@
 (* C19/Model.v -- executable model of phylib/utils/event.py (EventEmitter and ProgressReporter),
    as repaired by the two `fix:` commits of branch fix-c19 (silent() saves/restores the flag;
-   ProgressReporter.reset() assigns the maximum through the setter and re-arms).  No proofs here.
+   ProgressReporter.reset() assigns the maximum through the setter and re-arms) and by the stage-3
+   `fix:` commit of branch fix-c19c (silent() restores the flag in a `finally:` clause, so also when
+   the block is left by an exception).  No proofs here.
 
    Python objects are abstracted as follows.
    * events, senders, owner objects: integers (identity / == of the Python objects);
@@ -67,9 +69,10 @@ Inductive op (Arg : Type) :=
 | SetSilent (b : bool)
 | SilentEnter                      (* entering `with silent():` *)
 | SilentExit                       (* leaving the innermost open `with silent():` block *)
+| SilentExitExc                    (* stage 3: ... leaving it because an exception propagates out of the block *)
 | Emit (ev snd : Z) (a : Arg) (single : option bool).
 Arguments Connect {Arg}. Arguments Unconnect {Arg}. Arguments Reset {Arg}. Arguments SetSilent {Arg}.
-Arguments SilentEnter {Arg}. Arguments SilentExit {Arg}. Arguments Emit {Arg}.
+Arguments SilentEnter {Arg}. Arguments SilentExit {Arg}. Arguments SilentExitExc {Arg}. Arguments Emit {Arg}.
 
 (* observable outcome of one operation *)
 Inductive out (Arg Res : Type) :=
@@ -118,7 +121,9 @@ Definition step (s : state) (o : op Arg) : state * out Arg Res :=
   | Reset => (mkstate [] (flag s) (saved s), ONone)
   | SetSilent b => (mkstate (cbs s) b (saved s), ONone)
   | SilentEnter => (mkstate (cbs s) true (flag s :: saved s), ONone)
-  | SilentExit => match saved s with
+  | SilentExit | SilentExitExc =>      (* `finally: self.is_silent = is_silent` runs on both ways out;
+                                         after SilentExitExc the exception goes on to the caller of the `with` *)
+                  match saved s with
                   | b :: r => (mkstate (cbs s) b r, ONone)
                   | [] => (s, OBad)
                   end
@@ -216,7 +221,8 @@ Definition step_x (s : state) (o : op Arg) : state * outx Arg Res :=
   | Reset => (mkstate [] (flag s) (saved s), XNone)
   | SetSilent b => (mkstate (cbs s) b (saved s), XNone)
   | SilentEnter => (mkstate (cbs s) true (flag s :: saved s), XNone)
-  | SilentExit => match saved s with
+  | SilentExit | SilentExitExc =>
+                  match saved s with
                   | b :: r => (mkstate (cbs s) b r, XNone)
                   | [] => (s, XBad)
                   end
